@@ -55,6 +55,16 @@ CLAIMED = {
             "emitted skeleton compared with the declared resources holds for every parameter value; size-bounded in configuration.",
             "Trusts abstractify()/resource_rep equality as the notion of resource type; resource parameters from a float twin.",
             "DESIGN.md 4 C11", "E2"),
+    "C13": ("proof",
+            "contract on every registered rule that emits mid-circuit (Pauli) measurements + conditionals (found by scanning "
+            "the traced rules each run): for ALL 2^k outcome branches the branch operator on a generic input state equals "
+            "c_b * (U_target (x) |aux_b>), c_b != 0; projectors for outcomes, conditionals resolved by the real "
+            "MeasurementValue.concretize; exact ring arithmetic",
+            "The lattice-surgery PPM rules of CNOT/CY/CZ and the YY-measurement rule of Hadamard (the measurement-based "
+            "rules whose operators can be instantiated): every outcome branch, every input state - complete per rule.",
+            "Trusts vf/symx, the projector semantics of measurement outcomes; work wires assumed to start in |0>; device "
+            "execution of the branches and template rules without instance builder (e.g. TemporaryAND) are not covered.",
+            "DESIGN.md 4 C13", "E2"),
     "C16": ("proof",
             "sidecar contracts (pre/post, allowed exceptions, loop invariants with decreases) on the real methods of "
             "rings.py and norm_solver._solve_diophantine; VCs generated from the function ASTs on every run (all paths), "
